@@ -43,8 +43,11 @@ def gen_ballot(rng, n, pool):
             for c in sorted(rng.sample(range(n), rng.randint(1, n))):
                 s.append([c, rat(gen.gen_score(rng))])
         b = {"r": r, "s": s}
-    wk = rng.choice(["int", "frac", "float"])
-    if wk == "int":
+    wk = rng.choice(["int", "frac", "float"]) if rng.random() >= 0.08 else "zero"
+    if wk == "zero":
+        # a ballot of weight zero is a legal value (e.g. left behind by remove_cand with leave_zero_weight_ballots)
+        b["w"], b["wpy"] = None, rng.choice([0, 0.0, "F0"])
+    elif wk == "int":
         b["w"], b["wpy"] = None, rng.randint(1, 9)
     elif wk == "frac":
         f = Fraction(rng.randint(1, 20), rng.choice([2, 3, 7, 999983]))
@@ -219,7 +222,9 @@ def run_case(vk, case):
     if op == "derived":
         p = vk.PreferenceProfile(ballots=tuple(ballots))
         tot = sum((exact_weight(b["wpy"]) for b in bs), Fraction(0))
-        cast = sorted({c for b in bs for s in b["r"] for c in s} | {c for b in bs for c, _ in b["s"]})
+        # cast candidates are those on ballots that carry weight (the code's and the model's `weight > 0`)
+        pos = [b for b in bs if exact_weight(b["wpy"]) > 0]
+        cast = sorted({c for b in pos for s in b["r"] for c in s} | {c for b in pos for c, _ in b["s"]})
         if p.num_ballots != len(bs) or p.total_ballot_wt != tot or sorted(names.idx[c] for c in p.candidates_cast) != cast:
             fail("derived-fields", f"num {p.num_ballots} total {p.total_ballot_wt} cast {p.candidates_cast}", "derived")
         exp = {"cands": sorted(names.idx[c] for c in p.candidates), "cast": sorted(names.idx[c] for c in p.candidates_cast),
